@@ -95,6 +95,7 @@ fn main() {
         "C31" => storemon::vector::main(&args),
         "C32" => storemon::ids::main(&args),
         "C11" => cyphermon::read::main(&args),
+        "C12" => cyphermon::updates_gen::main(&args),
         "C13" => cyphermon::stmts::main_c13(&args),
         "C14" => cyphermon::stmts::main_c14(&args),
         "C24" => cyphermon::stmts::main_c24(&args),
